@@ -232,6 +232,10 @@ package openapiv3
 //@   at-call CreateSchemaProxy requires format_table: spec.scalarKindField(field) && spec.validKind(field.Desc.Kind()) && !spec.hasRules(field) ==> arg0.Format == spec.oasFormat(field)
 //@   at-call CreateSchemaProxy requires bytes_pattern: field.Desc.Kind() == protoreflect.BytesKind && !spec.hasRules(field) ==> arg0.Pattern == spec.bytesPattern(field)
 //@   at-call CreateSchemaProxy requires unsigned_minimum: (field.Desc.Kind() == protoreflect.Uint32Kind || field.Desc.Kind() == protoreflect.Fixed32Kind || (spec.isU64(field.Desc.Kind()) && spec.int64Number(field))) && !spec.hasRules(field) ==> arg0.Minimum != nil && deref(arg0.Minimum) == 0.0
+// the rules of the field are translated onto the very schema that is published, here, for every caller (plain fields, list
+// items, map values, oneof variants reach this function by different routes - C19)
+//@   at-call CreateSchemaProxy requires rules_translated: spec.scalarKindField(field) && spec.validKind(field.Desc.Kind()) ==> count("extractValidationConstraints") == old(count("extractValidationConstraints")) + 1 && lastArgRef("extractValidationConstraints", "1") == arg0
+//@   at-call extractValidationConstraints requires own_field: arg0 == field
 //@   at-call convertEnumField requires enums_only: field.Desc.Kind() == protoreflect.EnumKind
 //@   at-call convertTimestampField requires timestamps_only: spec.isTimestamp(field)
 
